@@ -358,6 +358,87 @@ func VerifC04_Currency() {
 	rt.Reach("currency-end")
 }
 
+// a setter racing with the refresh of a concurrency-safe getter in another
+// goroutine (G2, one preemption at any synchronisation operation): a getter
+// call that begins after the set returned observes the new value
+func VerifC04_ConcurrentGetterRace() {
+	rt.NoTimers()
+	rt.SchedYieldOnly(true)
+	rt.Preemptions(1)
+	rt.PreemptedRunLast(true)
+	c04Reset()
+	kind := rt.Choice("kind", 3)
+	var read func() int64
+	switch kind {
+	case 0:
+		addOption("k", OptTypeInt, ReleaseLevelStable, &valueCache{intVal: 0})
+		g := Concurrent.GetAsInt("k", -1)
+		read = func() int64 { return g() }
+	case 1:
+		addOption("k", OptTypeBool, ReleaseLevelStable, &valueCache{boolVal: false})
+		g := Concurrent.GetAsBool("k", false)
+		read = func() int64 {
+			if g() {
+				return 3
+			}
+			return 2
+		}
+	case 2:
+		addOption("k", OptTypeString, ReleaseLevelStable, &valueCache{stringVal: ""})
+		g := Concurrent.GetAsString("k", "")
+		read = func() int64 { return int64(len(g())) }
+	}
+	val := func(n int64) interface{} {
+		switch kind {
+		case 1:
+			return n == 3
+		case 2:
+			return "xxx"[:n]
+		}
+		return n
+	}
+	rt.Assert(setConfigOption("k", val(2), false) == nil, "getterrace/first-set-ok")
+	rt.Assert(read() == 2, "getterrace/initial")
+	// the getter's cached value is outdated by a further (same) set; its next
+	// call refreshes - in another goroutine, while the value is set to 3 here
+	rt.Assert(setConfigOption("k", val(2), false) == nil, "getterrace/second-set-ok")
+	done := make(chan struct{})
+	if rt.Bool("refresh-parked-at-the-validity-flag") {
+		// the same race made deterministic (also natively): the refresh is parked
+		// where it fetches the validity flag, by holding the flag's lock; the set
+		// is done in its two steps by hand (store the validated value, replace
+		// the flag - what setConfigOption and signalChanges do), then the lock is
+		// released
+		validityFlagLock.Lock()
+		go func() {
+			_ = read()
+			close(done)
+		}()
+		rt.Yield()
+		rt.NativePause()
+		o, _ := GetOption("k")
+		vc, verr := validateValue(o, val(3))
+		rt.Assert(verr == nil, "getterrace/value-valid")
+		o.Lock()
+		o.activeValue = vc
+		o.Unlock()
+		validityFlag.SetTo(false)
+		validityFlag = abool.NewBool(true)
+		validityFlagLock.Unlock()
+		<-done
+	} else {
+		go func() {
+			_ = read()
+			close(done)
+		}()
+		rt.Yield() // the refresh may be anywhere (it is preempted at most once)
+		rt.Assert(setConfigOption("k", val(3), false) == nil, "getterrace/racing-set-ok")
+		<-done
+	}
+	rt.Assert(read() == 3, "getterrace/getter-call-after-the-set-observes-the-new-value")
+	rt.Reach("getterrace-end")
+}
+
 // getters of the wrong type and for unknown options keep returning their
 // fallback, also after the configuration changed (getters refresh then)
 func VerifC04_FallbackCurrency() {
